@@ -87,6 +87,8 @@ type ModelResult struct {
 	// StateN is the expected final value of the state counter per stateful graph path
 	// ("" for the top level): the number of handler and ProcessState invocations.
 	StateN map[string]int
+	// BranchFailed: the failure is that of a branch condition (no node path to name)
+	BranchFailed bool
 	// SubInputs records the input each nested graph execution received (path -> inputs).
 	SubInputs map[string][]M
 	// Unconsumed is set when some delivered value never reached a consumer (a Pregel run
@@ -96,12 +98,13 @@ type ModelResult struct {
 }
 
 type modelRun struct {
-	offset     int
-	branchEval map[string]int // branch id -> evaluations so far
-	execCount  map[string]int // node path -> executions so far
-	bcount     map[string]int // state path -> body / post-handler updates so far
-	bview      map[string]int // state path -> bcount at the start of the current superstep
-	res        *ModelResult
+	offset       int
+	branchEval   map[string]int // branch id -> evaluations so far
+	execCount    map[string]int // node path -> executions so far
+	branchFailed bool           // a failing branch condition was evaluated
+	bcount       map[string]int // state path -> body / post-handler updates so far
+	bview        map[string]int // state path -> bcount at the start of the current superstep
+	res          *ModelResult
 	// FailHit is set when an injected failure was reached
 	failPath string
 }
@@ -114,6 +117,13 @@ func RunModelOffset(p *Plan, in M, offset int) *ModelResult {
 	mr := &modelRun{offset: offset, branchEval: map[string]int{}, execCount: map[string]int{}, bcount: map[string]int{}, bview: map[string]int{}, res: &ModelResult{StateN: map[string]int{}, SubInputs: map[string][]M{}}}
 	out, err := mr.run(p, "", "", in)
 	mr.res.Out, mr.res.Err = out, err
+	if mr.branchFailed {
+		if err != ErrNone && err != ErrNode {
+			mr.res.AltErr = append(mr.res.AltErr, err)
+		}
+		mr.res.Out, mr.res.Err = nil, ErrNode
+		mr.res.BranchFailed = true
+	}
 	return mr.res
 }
 
@@ -162,6 +172,10 @@ func (mr *modelRun) selected(p *Plan, path string, b *Branch, idx int) []string 
 	id := branchID(path, b.From, idx)
 	k := mr.branchEval[id]
 	mr.branchEval[id] = k + 1
+	if b.FailEval > 0 && k == b.FailEval-1 {
+		// the condition fails: the run fails (the model goes on only to keep its bookkeeping)
+		mr.branchFailed = true
+	}
 	return b.Script[(k+mr.offset)%len(b.Script)]
 }
 
